@@ -183,6 +183,10 @@ type StreamParser struct {
 
 const preamble = "HBas\x00\x50"
 
+// Unparsed returns the bytes received that do not yet form a complete frame,
+// and whether the connection header has been seen.
+func (p *StreamParser) Unparsed() ([]byte, bool) { return p.buf, p.gotHello }
+
 // Feed appends bytes and returns the frames completed by them. After a
 // protocol error Err is set and no further frames are returned.
 func (p *StreamParser) Feed(b []byte) []*Frame {
